@@ -1,4 +1,5 @@
 import GateModel.C05.ShapesPackets
+import GateModel.C05.Concurrent
 import GateModel.Gen.C05
 /-
 C05 — Decoding untrusted packets never crashes or blows up memory.
@@ -17,6 +18,9 @@ or on nesting):
   * `registered_schemas_bounded` for every modelled packet type in EVERY context (any protocol number, direction,
                               registry, id): the schema is productive, its array depth is ≤ 3 and K ≤ 2 MiB + 96 KiB
   * `registered_alloc_bound`  hence ≤ 5 · |payload| + 2 MiB + 96 KiB for every one of them
+
+  * `concurrent_read_only_never_faults` goroutines that only read the shared tables never reach the runtime's
+                              unrecoverable concurrent-map fault, under any schedule
 
 Process survival, real allocation and real termination of the Go decoders are runtime facts: they are observed by the
 hostile-payload run of the harness (every registered (registry, direction, protocol, id), unmodelled types included),
@@ -143,6 +147,33 @@ theorem src_preallocs_are_capped :
 
 /-- the model's pre-allocation cap is the regenerated constant -/
 theorem src_max_prealloc : maxPre = 32768 := by decide
+
+/-! ### concurrent decoding (one read goroutine per connection, process-wide tables shared)
+
+The schema decoders are functions of the payload alone (`PSchema.decode : PSchema → Bytes → …` takes no state), i.e. with
+respect to the shared tables (packet registries, brigadier argument registry) a decoding goroutine only READS.
+For read-only goroutines no schedule whatsoever — any number of goroutines, any interleaving, any length — reaches the
+runtime's unrecoverable "concurrent map access" fault. -/
+
+theorem concurrent_read_only_never_faults (ts : List (List Access)) (h : ReadOnly ts) (sched : List Nat) :
+    (runSched ts {} sched).faulted = false :=
+  (read_only_no_fault ts h sched {} ⟨rfl, rfl⟩).2
+
+/-- … whereas two decoders that fill a shared index lazily (look up, on a miss build and store) have a schedule that
+    kills the process: goroutine 1 looks the index up while goroutine 0 is storing it -/
+theorem concurrent_lazy_index_faults :
+    (runSched [lazyIndexDecoder, lazyIndexDecoder] {} [0, 0, 1]).faulted = true := by decide
+
+/-- … and so do two concurrent stores (both missed, both write) -/
+theorem concurrent_lazy_index_double_write_faults :
+    (runSched [lazyIndexDecoder, lazyIndexDecoder] {} [0, 1, 0, 1]).faulted = true := by decide
+
+open Gate.Gen.C05 in
+/-- secondary, source-shape signal for the read-only assumption: the decode path of the brigadier argument registry
+    (`argPropReg.Decode` with its same-receiver helpers inlined) creates or grows no table -/
+theorem src_registry_decode_builds_no_table :
+    registryDecodeCalls.all (fun c => c != "make" && c != "append" && c != "delete" && c != "clear" && c != "new") = true := by
+  decide
 
 /-! ### the defect repaired by the C05 fix stays documented -/
 
